@@ -178,7 +178,9 @@ def anytime(
                 elif objective==obj.MaximizeSmallestSum:
                     # An adaptation of the above heuristic to maximizing the smallest sum.
                     if bin_index==0:
-                        new_smallest_sum = min(current_sums[0]+binner.valueof(next_item), current_sums[1])
+                        new_smallest_sum = current_sums[0]+binner.valueof(next_item)
+                        if numbins > 1:
+                            new_smallest_sum = min(new_smallest_sum, current_sums[1])
                     else:
                         new_smallest_sum = current_sums[0]
                     fast_lower_bound = -(new_smallest_sum+sum_of_remaining_items)
